@@ -1788,6 +1788,30 @@ def rule_r20(ctx):
 # R21: once the init slot has run, a failing constructor runs the fini slot
 
 
+def _callers_destroy(prog, F, destroyers, fslot):
+    """F has callers, each of them tests F's result, and on the failure edge every path passes the object's destroyer (a function
+    that runs the fini slot) or the fini slot itself: the two-step constructor whose caller owns the clean-up"""
+    from .. import guards as G
+    ups = [(c, s) for (c, s) in prog.callers().get(F.name, []) if prog.resolve(c, F.name) is F and not c.cfg_failed]
+    if not ups:
+        return False
+    for c, s in ups:
+        ve = c.value_edges(s) or {}
+        if not ve:
+            return False
+        via = {(k.b, k.i) for k in c.calls() if k.node.get("fn") in destroyers} | {(k.b, k.i) for k in slot_calls(c, fslot)}
+        if not via:
+            return False
+        for b_, (nz_, z_) in ve.items():
+            succ = c.blocks[b_].succs[nz_]
+            if succ is None:
+                continue
+            if G.must_pass(c, (succ, 0), via) is not None:
+                return False
+    return True
+
+
+
 def rule_r21(ctx):
     r = ctx.rule("C20.R21", "T2", "once the protocol's / transport's init slot has run on a new object, every error return of the constructor "
                  "passes the matching fini slot (directly or through the object's destroyer): the init slot links the object "
@@ -1831,7 +1855,10 @@ def rule_r21(ctx):
                     cut[b_] = nz_
                 seen = F.reach((s.b, s.i + 1), blocked=lambda b, i, e: (b, i) in fin, edge_ok=lambda b, k: not (b in cut and cut[b] == k))
                 real = [e_ for e_ in errs if e_ in seen]
-                if real:
+                if real and _callers_destroy(prog, F, destroyers, fslot):
+                    r.ob(F, "%s: an error return after %s is the caller's to clean up, and every caller destroys the object on it" % (
+                        F.name, islot.split(".")[1]))
+                elif real:
                     ctx.fail(r, F, "error return after %s without %s" % (islot.split(".")[1], fslot.split(".")[1]), F.line_of(*real[0]),
                              "%s runs the %s slot (line %s) and can then return an error (line %s) without the %s slot or the object's "
                              "destroyer: what the init slot linked and allocated stays behind while the object is freed"
